@@ -19,7 +19,7 @@ from z3 import And, BoolVal, Concat, Contains, ForAll, Function, If, Implies, In
 
 from vf import bounded as B
 from vf import prims as P
-from vf.common import new_exec, run_function
+from vf.common import multi_path_meta, new_exec, run_function
 from vf.engine import Axis, Obj, Oblig, Path, T, same_size, toB, toI, toR
 from vf.proof import prove
 
@@ -64,7 +64,7 @@ def build_normalization():
             obs.append(Oblig(f"C18/normalization/unknown-mode-raises-ValueError{tag}", [], BoolVal(bool(outs) and all(o.raised and "ValueError" in str(o.value.exc) for o in outs)), "post", ("C18",)))
             continue
         ok = len(outs) == 1 and not outs[0].raised and isinstance(outs[0].value, T) and outs[0].value.ndim == 2
-        obs.append(Oblig(f"C18/normalization/returns-(G,T)-array{tag}", [], BoolVal(bool(ok)), "shape", ("C18",)))
+        obs.append(Oblig(f"C18/normalization/returns-(G,T)-array{tag}", [], BoolVal(bool(ok)), "shape", ("C18",), multi_path_meta(outs)))
         if not ok:
             continue
         r, hy = outs[0].value, outs[0].path.pc
